@@ -47,23 +47,77 @@ package db
 //@   ensures[member] result == old(c.lastCheckpointSeq) || (old(elem(c.expectedSeqs, now(result))) && (result in c.processedSeqs))
 
 // The Add* operations never drop an expected sequence and never un-process one.
+//
+// Ignored after cancel (uniform over the five Add* entry points). _disconnect cancels the checkpointer context and
+// then takes one final CheckpointNow() while BLIP handlers may still be finishing a changes batch; if one kind of
+// notification were still recorded after the cancel while the "expected" notification of an earlier change of the
+// same batch was dropped, the final checkpoint would land after a change that was announced and never processed.
+// The guard in the code is `select { case <-c.ctx.Done(): trace; return; default: }`. The engine abstracts select
+// (arbitrary branch), so "context done ==> lists unchanged" cannot be tied to the channel; it is stated as the two
+// halves the engine can check, which together with the semantics of a non-blocking receive give the clause:
+//   ctx-consulted        every path that takes the lock (all list mutations are under it) has called c.ctx.Done()
+//   cancel-path-ignores  the path taken when the receive from Done() succeeds (the only one that traces) returns
+//                        with expectedSeqs, processedSeqs and idAndRevLookup unchanged
 //@ func Checkpointer.AddProcessedSeq
 //@   requires c != nil && c.processedSeqs != nil
 //@   modifies elems(c.processedSeqs), c.stats.ProcessedSequenceCount
+//@   before[ctx-consulted] call Lock#1 called(Done, 1)
+//@   ensures[cancel-path-ignores] called(TracefCtx, 1) ==> (forall e SequenceID :: {e in c.processedSeqs} e in c.processedSeqs <==> old(e in c.processedSeqs))
 //@   ensures[keeps-processed] forall e SequenceID :: {e in c.processedSeqs} old(e in c.processedSeqs) ==> e in c.processedSeqs
 //@   ensures[only-seq]        forall e SequenceID :: {e in c.processedSeqs} e in c.processedSeqs ==> old(e in c.processedSeqs) || e == seq
+
+//@ func Checkpointer.AddProcessedSeqIDAndRev
+//@   requires c != nil && c.processedSeqs != nil && c.idAndRevLookup != nil
+//@   modifies elems(c.processedSeqs), elems(c.idAndRevLookup), c.stats.ProcessedSequenceCount
+//@   before[ctx-consulted] call Lock#1 called(Done, 1)
+//@   ensures[cancel-path-ignores] called(TracefCtx, 1) ==> (forall e SequenceID :: {e in c.processedSeqs} e in c.processedSeqs <==> old(e in c.processedSeqs)) && (forall r IDAndRev :: {r in c.idAndRevLookup} r in c.idAndRevLookup <==> old(r in c.idAndRevLookup)) && (forall r IDAndRev :: {c.idAndRevLookup[r]} c.idAndRevLookup[r] == old(c.idAndRevLookup[r]))
+//@   ensures[keeps-processed] forall e SequenceID :: {e in c.processedSeqs} old(e in c.processedSeqs) ==> e in c.processedSeqs
+//@   ensures[only-seq]        forall e SequenceID :: {e in c.processedSeqs} e in c.processedSeqs && !old(e in c.processedSeqs) ==> (seq != nil && e == old(*seq)) || (seq == nil && e == old(c.idAndRevLookup[idAndRev]))
 
 //@ func Checkpointer.AddExpectedSeqs
 //@   requires c != nil
 //@   modifies c.expectedSeqs, elems(c.expectedSeqs), c.stats.ExpectedSequenceCount
+//@   before[ctx-consulted] call Lock#1 called(Done, 1)
+//@   ensures[cancel-path-ignores] called(TracefCtx, 1) ==> c.expectedSeqs == old(c.expectedSeqs) && (forall k int :: {c.expectedSeqs[k]} 0 <= k && k < len(c.expectedSeqs) ==> c.expectedSeqs[k] == old(c.expectedSeqs[k]))
 //@   ensures[kept]  forall k int :: {old(c.expectedSeqs[k])} 0 <= k && k < old(len(c.expectedSeqs)) ==> elem(c.expectedSeqs, old(c.expectedSeqs[k]))
 //@   ensures[added] c.expectedSeqs == old(c.expectedSeqs) || (forall j int :: {old(seqs[j])} 0 <= j && j < len(seqs) ==> elem(c.expectedSeqs, old(seqs[j])))
+
+//@ func Checkpointer.AddExpectedSeqIDAndRevs
+//@   requires c != nil && c.idAndRevLookup != nil
+//@   modifies c.expectedSeqs, elems(c.expectedSeqs), elems(c.idAndRevLookup), c.stats.ExpectedSequenceCount
+//@   before[ctx-consulted] call Lock#1 called(Done, 1)
+//@   ensures[cancel-path-ignores] called(TracefCtx, 1) ==> c.expectedSeqs == old(c.expectedSeqs) && (forall k int :: {c.expectedSeqs[k]} 0 <= k && k < len(c.expectedSeqs) ==> c.expectedSeqs[k] == old(c.expectedSeqs[k])) && (forall r IDAndRev :: {r in c.idAndRevLookup} r in c.idAndRevLookup <==> old(r in c.idAndRevLookup)) && (forall r IDAndRev :: {c.idAndRevLookup[r]} c.idAndRevLookup[r] == old(c.idAndRevLookup[r]))
 
 //@ func Checkpointer.AddAlreadyKnownSeq
 //@   requires c != nil && c.processedSeqs != nil
 //@   modifies c.expectedSeqs, elems(c.expectedSeqs), elems(c.processedSeqs), c.stats.AlreadyKnownSequenceCount
+//@   before[ctx-consulted] call Lock#1 called(Done, 1)
+//@   ensures[cancel-path-ignores] called(TracefCtx, 1) ==> c.expectedSeqs == old(c.expectedSeqs) && (forall k int :: {c.expectedSeqs[k]} 0 <= k && k < len(c.expectedSeqs) ==> c.expectedSeqs[k] == old(c.expectedSeqs[k])) && (forall e SequenceID :: {e in c.processedSeqs} e in c.processedSeqs <==> old(e in c.processedSeqs))
 //@   ensures[kept]  forall k int :: {old(c.expectedSeqs[k])} 0 <= k && k < old(len(c.expectedSeqs)) ==> elem(c.expectedSeqs, old(c.expectedSeqs[k]))
 //@   ensures[keeps-processed] forall e SequenceID :: {e in c.processedSeqs} old(e in c.processedSeqs) ==> e in c.processedSeqs
 //@   ensures[only-seqs] forall e SequenceID :: {e in c.processedSeqs} e in c.processedSeqs && !old(e in c.processedSeqs) ==> elem(seq, e)
 //@   loop 1 invariant[keeps] forall e SequenceID :: {e in c.processedSeqs} old(e in c.processedSeqs) ==> e in c.processedSeqs
 //@   loop 1 invariant[only]  forall e SequenceID :: {e in c.processedSeqs} e in c.processedSeqs && !old(e in c.processedSeqs) ==> elem(seq, e)
+
+// Order of the notifications of one changes batch (path clauses on the function that makes both calls). A
+// checkpoint tick may run between any two notifications; an already-known sequence is at once expected AND
+// processed, so it is checkpointable the moment it is recorded: if a batch's already-known notification is recorded
+// before its expected notification, a tick in between persists a checkpoint after the earlier, still unannounced
+// and unprocessed changes of the same batch. Clause: when the expected notification of the batch is made, the
+// already-known notification of the same batch has not yet been made. The callbacks are function-valued fields:
+// the call sites are the `dynamic` calls of the function, numbered in source order (a repair that moves the
+// already-known call of handleChangesResponse behind the expected call renumbers them: the clause then reads
+// `before call dynamic#1 !called(dynamic, 2)`; checked: it is proved on the reordered code).
+//   pull  (blipHandler.handleChanges):              dynamic#1 emptyChangesMessageCallback, #2 sgr2PullAddExpectedSeqsCallback, #3 sgr2PullAlreadyKnownSeqsCallback
+//   push  (BlipSyncContext.handleChangesResponse):  dynamic#1 sgr2PushAlreadyKnownSeqsCallback, #2 sgr2PushAddExpectedSeqsCallback
+// `only-contracts none`: no callee is called "none", i.e. every callee is treated as uncontracted (path contract
+// on a large function: other properties' preconditions on RevDiff, CheckChangeVersion, ... are not obligations here).
+//@ func blipHandler.handleChanges
+//@   modifies *
+//@   only-contracts none
+//@   before[expected-before-known] call dynamic#2 !called(dynamic, 3)
+
+//@ func BlipSyncContext.handleChangesResponse
+//@   modifies *
+//@   only-contracts none
+//@   before[expected-before-known] call dynamic#2 !called(dynamic, 1)
